@@ -112,6 +112,9 @@ def main(argv=None):
             for r in results:  # task order, not completion order
                 rec.merge(r)
 
+        if hasattr(mod, "finish"):
+            mod.finish(rec, a.tier, seed, a.jobs)
+
         # 3. replay files for new violations (one per check: the first in task order)
         seen = set()
         for v in rec.violations:
@@ -121,8 +124,6 @@ def main(argv=None):
             p = core.write_replay(pid, v["check"], v["case"], v["msg"], v["sig"], v.get("detail"))
             viol_out.append((os.path.relpath(p, core.VERIF_ROOT), v["msg"]))
 
-        if hasattr(mod, "finish"):
-            mod.finish(rec)
         wall = time.time() - t0
         core.write_evidence(
             rec,
